@@ -984,6 +984,7 @@ class Context:
                 # We need to extract the function from the bytecode
                 # Execute the expression to get the function object
                 vm = VM(self.memory_limit, self.time_limit)
+                vm.context = self
                 vm.globals = self._globals
                 if self._current_vm is not None:
                     # Share the deadline of the evaluation that is in flight
@@ -1131,6 +1132,7 @@ class Context:
                 bytecode_module = compiler.compile(ast)
 
                 vm = VM(ctx.memory_limit, ctx.time_limit)
+                vm.context = ctx
                 vm.globals = ctx._globals
                 if ctx._current_vm is not None:
                     # Share the deadline of the evaluation that is in flight
@@ -1269,7 +1271,7 @@ class Context:
 
         # Execute
         vm = VM(memory_limit=self.memory_limit, time_limit=self.time_limit)
-
+        vm.context = self
         vm.start_time = started
 
         # Share globals with VM (don't copy - allows nested eval to modify globals)
@@ -1292,6 +1294,7 @@ class Context:
         This is used internally to invoke JSFunction objects from Python code.
         """
         vm = VM(memory_limit=self.memory_limit, time_limit=self.time_limit)
+        vm.context = self
         vm.globals.update(self._globals)
         result = vm._call_callback(func, args, UNDEFINED)
         self._globals.update(vm.globals)
